@@ -48,6 +48,7 @@ func localDefs(fn *Fn) map[types.Object][]ast.Expr {
 }
 
 var c04R1Reviewed = map[string]string{
+	"mir/gen.(*functionBuilder).foldIntegerLiterals":  "evaluates expressions built from integer literals, parentheses, unary minus and arithmetic operators only (C10.R7 checks that the selecting predicate has no case for identifiers), so no symbol's flow-insensitive value is read",
 	"mir/gen.(*functionBuilder).lookupQualifiedConst": "reads the ConstValue of a *module-level* symbol of another module; module-level variables cannot be used inside functions (MIR lowering rejects the identifier), so they are never reassigned and the value is the initialiser's",
 }
 
